@@ -115,6 +115,8 @@ namespace plan
     }
     else if (name == "xorn")
       op.a = {static_cast<long>(r.below(4)), static_cast<long>(r.below(1000))};
+    else if (name == "r_mul")
+      op.a = {static_cast<long>(r.below(4)), static_cast<long>(r.below(3)), static_cast<long>(r.below(8)), static_cast<long>(r.below(8)), static_cast<long>(r.below(3))};
     else if (name == "r_logic")
     {
       op.a = {static_cast<long>(r.below(4))};
@@ -132,7 +134,7 @@ namespace plan
     else if (name == "origin")
       op.a = {static_cast<long>(r.below(5))};
     else if (name == "rr")
-      op.a = {static_cast<long>(r.below(6))};
+      op.a = {static_cast<long>(r.below(6)), static_cast<long>(r.chance(1, 3) ? 1 + 2 * r.below(4) : 0)};
     else if (name == "use")
       op.a = {static_cast<long>(r.below(2)), static_cast<long>(r.below(8)), static_cast<long>(r.below(5)), static_cast<long>(r.below(16)), static_cast<long>(r.below(6))};
     else if (name == "horizon")
@@ -319,7 +321,7 @@ namespace plan
     }
     if (causal || sv)
       for (int i = 0, n = static_cast<int>(sw.range(1, 6)); i < n; ++i)
-        ops.push_back(g_op(g, g.chance(1, 6) ? "r_logic" : (g.chance(1, 2) ? "r_rel" : "r_goal")));
+        ops.push_back(g_op(g, g.chance(1, 6) ? "r_logic" : (g.chance(1, 8) ? "r_mul" : (g.chance(1, 2) ? "r_rel" : "r_goal"))));
     W w;
     const bool timeline_focus = prop == "C19" || prop == "C04" || prop == "C05" || prop == "C06";
     w.add("real", 3), w.add("bool", 2), w.add("rel", timeline_focus ? 4 : 14);
